@@ -242,13 +242,23 @@ impl Emitter {
                 format!("project |{}| {{ {} }}", ns.join(", "), self.goals(gs, names))
             }
             G::For(v, kind, coll, cs) => {
-                let cname = format!("{}_c{}", self.prefix, self.nlets);
-                self.nlets += 1;
                 let items: Vec<String> = coll.iter().map(|t| self.term(t, names)).collect();
-                match kind {
-                    CollKind::List => self.lets.push(format!("let {}: LTerm = lterm!([{}]);", cname, items.join(", "))),
-                    CollKind::Vec => self.lets.push(format!("let {}: Vec<LTerm> = vec![{}];", cname, items.iter().map(|i| format!("lterm!({})", i)).collect::<Vec<_>>().join(", "))),
-                }
+                // a ground collection is a Rust value built before the query; one that mentions logic
+                // variables of the enclosing scope is written in place, as an expression
+                let cname = if coll.iter().all(|t| t.is_ground() && !t.has_any()) {
+                    let cname = format!("{}_c{}", self.prefix, self.nlets);
+                    self.nlets += 1;
+                    match kind {
+                        CollKind::List => self.lets.push(format!("let {}: LTerm = lterm!([{}]);", cname, items.join(", "))),
+                        CollKind::Vec => self.lets.push(format!("let {}: Vec<LTerm> = vec![{}];", cname, items.iter().map(|i| format!("lterm!({})", i)).collect::<Vec<_>>().join(", "))),
+                    }
+                    cname
+                } else {
+                    match kind {
+                        CollKind::List => format!("lterm!([{}])", items.join(", ")),
+                        CollKind::Vec => format!("vec![{}]", items.iter().map(|i| format!("lterm!({})", i)).collect::<Vec<_>>().join(", ")),
+                    }
+                };
                 let mut fv = BTreeSet::new();
                 for c in cs {
                     for x in c {
@@ -259,7 +269,13 @@ impl Emitter {
                 let n = self.pick_names(&[*v], &fv, names).remove(0);
                 let mut inner = names.clone();
                 inner.insert(*v, n.clone());
-                format!("for {} in &{} {{ {} }}", n, cname, self.clauses(cs, &inner))
+                // the body closure of `for` is boxed as 'static without `move`: nothing from the
+                // enclosing Rust scope may be borrowed inside it, so no `{expr}` arguments there
+                let saved = self.allow_lets;
+                self.allow_lets = false;
+                let body = self.clauses(cs, &inner);
+                self.allow_lets = saved;
+                format!("for {} in &{} {{ {} }}", n, cname, body)
             }
             G::Match(kind, s, arms) => {
                 let mut out = vec![];
